@@ -147,4 +147,27 @@ MUTANTS = [
 	return ch.Channel()""", """	r := ch.Channel()
 	ch.topic = topic
 	return r"""),
+    # ---- C03
+    M("c03-fg-dispatch-go", ["C03"], DISP, "	conn.fgHandlers.dispatch(conn, line)\n}", "	go conn.fgHandlers.dispatch(conn, line)\n}"),
+    M("c03-no-wg-wait", ["C03"], DISP, "		}(hn)\n	}\n	wg.Wait()", "		}(hn)\n	}\n	_ = wg"),
+    M("c03-runloop-go-dispatch", ["C03"], CONN, "		case line := <-conn.in:\n			conn.dispatch(line)", "		case line := <-conn.in:\n			go conn.dispatch(line)"),
+    M("c03-001-connected-go", ["C03"], H, "	defer conn.dispatch(&Line{Cmd: CONNECTED, Time: time.Now()})", "	defer func() { go conn.dispatch(&Line{Cmd: CONNECTED, Time: time.Now()}) }()"),
+    M("c03-connected-before-nick", ["C03"], H, "	defer conn.dispatch(&Line{Cmd: CONNECTED, Time: time.Now()})", "	conn.dispatch(&Line{Cmd: CONNECTED, Time: time.Now()})"),
+    M("c03-close-disc-before-wait", ["C03"], CONN, """	conn.drainOut()
+	conn.wg.Wait()
+	conn.mu.Unlock()
+	// Dispatch after closing connection but before reinit
+	// so event handlers can still access state information.
+	conn.dispatch(&Line{Cmd: DISCONNECTED, Time: time.Now()})""", """	conn.drainOut()
+	conn.dispatch(&Line{Cmd: DISCONNECTED, Time: time.Now()})
+	conn.wg.Wait()
+	conn.mu.Unlock()"""),
+    M("c03-wait-only-last-handler", ["C03"], DISP, """	for _, hn := range hs.getHandlers(ev) {
+		wg.Add(1)""", """	hns := hs.getHandlers(ev)
+	for i, hn := range hns {
+		if i < len(hns)-1 && len(hns) > 2 {
+			go hn.Handle(conn, line.Copy())
+			continue
+		}
+		wg.Add(1)""", note="with >2 handlers only the last is waited for"),
 ]
